@@ -168,9 +168,9 @@ def check_script(impl, model, lines):
                     key = site[0].split()[1::2] if site else None   # (function called, caller offset)
                     work[c] = [e for i, e in enumerate(work[c]) if i != idx and not (
                         e[0] == 'D' and key is not None and [d.split()[1::2] for d in e[2] if d.startswith('direct ')][:1] == [key])]
-                else:
-                    del work[c][idx]
-                nxt.append(c)
+                    nxt.append(c)
+                # any other rejected event ends the judgement of this trace: what follows it would only be
+                # consequences of the first breach
             elif not v.startswith('ACCEPT'):
                 raise vlib.BuildError('monitor said: ' + v)
         todo = nxt
